@@ -132,6 +132,26 @@ def run_corpus(prop=None, ids=None, jobs=None, verbose=False):
     return results, errors
 
 
+def refactor_variants():
+    """E variants: behaviour-preserving refactorings written by independent agents (archived under /verif/refactors/<id>/patch.diff,
+    each with an equivalence demo).  Every check must stay silent on them."""
+    from .corpus import ALL_PROPS
+    here = os.path.dirname(os.path.dirname(os.path.abspath(__file__)))
+    d = os.path.join(here, "refactors")
+    out = []
+    if not os.path.isdir(d):
+        return out
+    for name in sorted(os.listdir(d)):
+        pp = os.path.join(d, name, "patch.diff")
+        if not os.path.exists(pp):
+            continue
+        with open(pp) as f:
+            diff = f.read()
+        out.append(M("refactor:" + name, ALL_PROPS, "*", (lambda src, _d=diff: apply_unified_diff(src, _d)), None, kind="E",
+                     note="independent behaviour-preserving refactoring archived under /verif/refactors/%s" % name))
+    return out
+
+
 def main(argv=None):
     warnings.simplefilter("ignore")
     ap = argparse.ArgumentParser()
